@@ -317,7 +317,7 @@ def _n3(run: Run, w: World) -> None:
                         f"is named like its source, and because assumptions were 'passed' the source's own assumptions are discarded")
         for label, kwargs in variants:
             run.ob("N3", f"{name}:{label}")
-            source = Obj("Symbol", {"display_name": "SRC", "display_latex": "SRCTEX", "dimension": D, "assumptions0": {"real": True, "commutative": True}}, "source")
+            source = Obj("Symbol", {"display_name": "SRC", "display_latex": "SRCTEX", "dimension": D, "assumptions0": {"real": True, "commutative": True, "negative": False}}, "source")
             R = CloneReader(m.tree, "symbols.py")
             try:
                 got = R.call(name, [source] + list(extra), dict(kwargs))
@@ -335,7 +335,7 @@ def _n3(run: Run, w: World) -> None:
                 want_code = kwargs.get("display_symbol", "SRC")
                 want_latex = kwargs.get("display_latex", "SRCTEX")
                 own = {k: v for k, v in kwargs.items() if k not in ("display_symbol", "display_latex", "subscript")}
-                want_assumptions = own or {"real": True, "commutative": True}
+                want_assumptions = own or {"real": True, "commutative": True, "negative": False}
                 got_assumptions = {k: v for k, v in k_.items() if k not in ("display_latex", "display_symbol", dim_kw)}
                 if not (isinstance(dim, Dim) and dim == D):
                     problem = f"passes {dim!r} as dimension instead of source.dimension"
@@ -346,8 +346,8 @@ def _n3(run: Run, w: World) -> None:
                 elif "subscript" not in kwargs and (code != want_code or latex != want_latex):
                     problem = f"names the clone ({code!r}, {latex!r}); expected ({want_code!r}, {want_latex!r}) - explicit names win, otherwise the source's"
                 elif got_assumptions != want_assumptions:
-                    problem = (f"forwards the assumptions {got_assumptions!r}; expected {want_assumptions!r} "
-                               f"({'the caller\'s' if own else 'source.assumptions0 when none are passed: a clone of a real/positive symbol must not lose that knowledge'})")
+                    whose = "the caller's" if own else "source.assumptions0 when none are passed: a clone of a real/positive symbol must not lose that knowledge"
+                    problem = f"forwards the assumptions {got_assumptions!r}; expected {want_assumptions!r} ({whose})"
             if problem:
                 run.violate("N3", f"{SYMS}:{name}:{label}", m, fdef, f"{name} ({label}) {problem}")
         run.sample({"clone": f"{SYMS}:{name}"})
